@@ -1049,7 +1049,7 @@ fn depth_to_space(tier: Tier) -> Vec<Case> {
     for dt in [Dt::F32, Dt::I32, Dt::I64, Dt::U8] {
         for bs in [1usize, 2, 3] {
             for co in [1usize, 2, 3] {
-                let hw: Vec<(usize, usize)> = if tier.is_thorough() { vec![(1, 1), (2, 3), (3, 2), (1, 4), (5, 5)] } else { vec![(1, 1), (2, 3), (3, 1)] };
+                let hw: Vec<(usize, usize)> = if tier.is_thorough() { vec![(1, 1), (2, 3), (3, 1), (3, 2), (1, 4), (5, 5)] } else { vec![(1, 1), (2, 3), (3, 1)] };
                 for (h, w) in hw {
                     for n in [1usize, 2] {
                         if dt != Dt::F32 && (n == 2 || co == 3) {
